@@ -28,29 +28,7 @@ func runC07(r *core.Run) {
 	r.Rule("R07.4", "fresh package object per parse attempt; no global state written by parsers", 30, true)
 	r.Rule("R07.5", "wire reads outside error-returning functions only in enumerated consumers", 1, true)
 
-	r.Stats["W_functions"] = len(ef.W)
-	forms := map[string]int{}
-	for _, fn := range ef.SortedW() {
-		if !core.InModule(fn) || fn.Blocks == nil {
-			continue
-		}
-		for _, c := range core.Calls(fn) {
-			if !ef.IsWCall(c) {
-				continue
-			}
-			key := core.FuncName(fn) + " -> " + calleeKey(c)
-			v := ef.CheckSite(fn, c)
-			if v.ok {
-				forms[v.form]++
-				r.OK("R07.1", key, c.Pos(), v.reason)
-			} else {
-				r.Bad("R07.1", key, c.Pos(), v.reason, "offending use at "+p.Pos(v.pos))
-			}
-		}
-	}
-	for f, n := range forms {
-		r.Stats["R07.1_form_"+f] = n
-	}
+	errSites(r, ef, "R07.1")
 
 	// R07.5 consumers
 	allowedConsumers := map[string]string{
@@ -205,7 +183,9 @@ func c07Retry(r *core.Run, ef *errFlow) {
 	r.Check(ok, "R07.3", key, is.Pos(), "errors.Is(err, ErrNotEnoughBytes) → return false with no send; other errors → errCh", why)
 }
 
-func c07Fresh(r *core.Run, ef *errFlow) {
+func c07Fresh(r *core.Run, ef *errFlow) { freshRule(r, ef, "R07.4") }
+
+func freshRule(r *core.Run, ef *errFlow, rule string) {
 	p := r.Prog
 	lp := p.Func("tds", "", "LookupPackage")
 	for _, ret := range core.Returns(lp) {
@@ -216,9 +196,9 @@ func c07Fresh(r *core.Run, ef *errFlow) {
 		fresh, what := freshValue(v, 0)
 		key := "LookupPackage returns " + core.TypeStr(core.Strip(v).Type())
 		if fresh {
-			r.OK("R07.4", key, ret.Pos(), what)
+			r.OK(rule, key, ret.Pos(), what)
 		} else {
-			r.Bad("R07.4", key, ret.Pos(), "the package handed to a parse attempt is not freshly allocated ("+what+"): a failed attempt leaves partial state for the retry")
+			r.Bad(rule, key, ret.Pos(), "the package handed to a parse attempt is not freshly allocated ("+what+"): a failed attempt leaves partial state for the retry")
 		}
 	}
 	// tryParsePackage obtains pkg from LookupPackage in the same invocation
@@ -229,7 +209,7 @@ func c07Fresh(r *core.Run, ef *errFlow) {
 			calls++
 		}
 	}
-	r.Check(calls == 1, "R07.4", "tryParsePackage calls LookupPackage", tp.Pos(), "one LookupPackage call per attempt", fmt.Sprintf("%d LookupPackage calls in tryParsePackage", calls))
+	r.Check(calls == 1, rule, "tryParsePackage calls LookupPackage", tp.Pos(), "one LookupPackage call per attempt", fmt.Sprintf("%d LookupPackage calls in tryParsePackage", calls))
 
 	// no stores to package-level variables inside W
 	for _, fn := range ef.SortedW() {
@@ -250,12 +230,12 @@ func c07Fresh(r *core.Run, ef *errFlow) {
 				}
 				if g := rootGlobal(addr); g != nil {
 					bad = true
-					r.Bad("R07.4", core.FuncName(fn)+" writes "+g.Name(), in.Pos(), "a parser writes package-level state; a failed (truncated) attempt is not side-effect free")
+					r.Bad(rule, core.FuncName(fn)+" writes "+g.Name(), in.Pos(), "a parser writes package-level state; a failed (truncated) attempt is not side-effect free")
 				}
 			}
 		}
 		if !bad {
-			r.OK("R07.4", core.FuncName(fn)+" writes no globals", fn.Pos(), "no store rooted at a package-level variable")
+			r.OK(rule, core.FuncName(fn)+" writes no globals", fn.Pos(), "no store rooted at a package-level variable")
 		}
 	}
 }
@@ -323,4 +303,32 @@ func freshValue(v ssa.Value, depth int) (bool, string) {
 		return false, "package-level variable " + x.Name()
 	}
 	return false, core.Expr(v)
+}
+
+// errSites runs the E-ERR obligation for every call into W made inside W.
+func errSites(r *core.Run, ef *errFlow, rule string) {
+	p := r.Prog
+	r.Stats["W_functions"] = len(ef.W)
+	forms := map[string]int{}
+	for _, fn := range ef.SortedW() {
+		if !core.InModule(fn) || fn.Blocks == nil {
+			continue
+		}
+		for _, c := range core.Calls(fn) {
+			if !ef.IsWCall(c) {
+				continue
+			}
+			key := core.FuncName(fn) + " -> " + calleeKey(c)
+			v := ef.CheckSite(fn, c)
+			if v.ok {
+				forms[v.form]++
+				r.OK(rule, key, c.Pos(), v.reason)
+			} else {
+				r.Bad(rule, key, c.Pos(), v.reason, "offending use at "+p.Pos(v.pos))
+			}
+		}
+	}
+	for f, n := range forms {
+		r.Stats[rule+"_form_"+f] = n
+	}
 }
